@@ -58,7 +58,9 @@ def runCase (v : Variant) (line : String) : String :=
   | ["free", _, _, _] =>
     -- free-running writers, observed at rest: in the model every view reads the one published content
     -- (`len`, `iter`, `get` are functions of `content`), so all four agreements hold for every history
-    "rest len-agrees=true empty-agrees=true gets-agree=true keys-unique=true"
+    -- and a lookup next to the writers reads one published content: the value it returns is the one stored under
+    -- its key in that content, and a key present in every published content is found
+    "rest len-agrees=true empty-agrees=true gets-agree=true keys-unique=true reads-own-key=true pinned-key-seen=true"
   | _ => "bad-case"
 
 partial def loop (v : Variant) (h : IO.FS.Stream) (out : IO.FS.Stream) : IO Unit := do
